@@ -110,6 +110,7 @@ macro_rules! ready {
 #[cfg_attr(feature = "unstable", allow(missing_docs))]
 mod codec;
 mod error;
+#[cfg_attr(feature = "verif-hooks", allow(missing_docs, missing_debug_implementations))]
 mod hpack;
 
 #[cfg(not(feature = "unstable"))]
@@ -134,6 +135,10 @@ mod share;
 #[cfg(fuzzing)]
 #[cfg_attr(feature = "unstable", allow(missing_docs))]
 pub mod fuzz_bridge;
+
+#[cfg(feature = "verif-hooks")]
+#[allow(missing_docs, missing_debug_implementations)]
+pub mod verif;
 
 pub use crate::error::{Error, Reason};
 pub use crate::share::{FlowControl, Ping, PingPong, Pong, RecvStream, SendStream, StreamId};
